@@ -211,51 +211,71 @@ def prepare(fam, cfg):
     return dst, report, errors, sources
 
 
+def _run_family(fam, cfg, mine, jobs_cap, log):
+    """Extracts one family and runs its harnesses; returns (results, sources, extraction info, cmds)."""
+    results, cmds = [], []
+    dst, report, errors, sources = prepare(fam, cfg)
+    ext = {"items": report, "dropped": cfg.get("dropped", "")}
+    if errors:
+        for o in mine:
+            results.append(Result(o, UNDECIDED, detail="extraction: " + "; ".join(errors)))
+        return results, sources, ext, cmds
+    groups = {}
+    for o in mine:
+        key = (tuple(sorted(f for f in o.flags if f in ("nofloat",))), 0)
+        groups.setdefault(key, []).append(o)
+    for (flags, _b), os_ in sorted(groups.items()):
+        budget = max(o.budget for o in os_)
+        heavy = any("heavy" in o.flags for o in os_)
+        jobs = min(jobs_cap, 4) if heavy else jobs_cap
+        outjson = os.path.join(E3DIR, f"out-{fam}-{os.getpid()}.json")
+        if os.path.exists(outjson):
+            os.remove(outjson)
+        cmd = ["cargo", "kani", "--target-dir", os.path.join(E3DIR, "target-" + fam),
+               "-Z", "function-contracts", "-Z", "stubbing", "-Z", "unstable-options", "--exact",
+               "-j", str(jobs), "--output-format", "terse", "--export-json", outjson,
+               "--harness-timeout", f"{budget}s"]
+        if "nofloat" in flags:
+            cmd.append("--no-overflow-checks")
+        for o in sorted(os_, key=lambda o: -o.budget):
+            cmd += ["--harness", o.harness]
+        cmds.append(f"(cd <scratch>/e3/{fam}; " + " ".join(cmd[:12]) + f" … {len(os_)} harnesses)")
+        log(f"[e3] cargo kani family={fam} harnesses={len(os_)} budget={budget}s jobs={jobs}")
+        wall = budget * (len(os_) / jobs + 1) + 900
+        rc, out, dt = run(cmd, cwd=dst, timeout=wall, mem_gb=28)
+        with open(os.path.join(E3DIR, f"last-{fam}.log"), "w") as f:
+            f.write(out)
+        results += e1._parse(outjson, out, os_, rc)
+        if os.path.exists(outjson):
+            os.remove(outjson)
+    return results, sources, ext, cmds
+
+
 def run_obligations(obls, log):
+    """Families are independent crates: they are verified side by side, the cores being shared out in
+    proportion to the number of harnesses (at least 2 per family)."""
+    from concurrent.futures import ThreadPoolExecutor
     results = []
     info = {"cmds": [], "extraction": {}}
     prep = type("P", (), {})()
     prep.sources = []
     fams = _families()
     with Lock("e3"):
-        for fam in sorted({o.crate for o in obls}):
-            cfg = fams[fam]
-            mine = [o for o in obls if o.crate == fam]
-            dst, report, errors, sources = prepare(fam, cfg)
-            prep.sources += sources
-            info["extraction"][fam] = {"items": report, "dropped": cfg.get("dropped", "")}
-            if errors:
-                for o in mine:
-                    results.append(Result(o, UNDECIDED, detail="extraction: " + "; ".join(errors)))
-                continue
-            groups = {}
-            for o in mine:
-                key = (tuple(sorted(f for f in o.flags if f in ("nofloat",))), 0)
-                groups.setdefault(key, []).append(o)
-            for (flags, _b), os_ in sorted(groups.items()):
-                budget = max(o.budget for o in os_)
-                heavy = any("heavy" in o.flags for o in os_)
-                jobs = min(NCPU, 4) if heavy else NCPU
-                outjson = os.path.join(E3DIR, f"out-{fam}-{os.getpid()}.json")
-                if os.path.exists(outjson):
-                    os.remove(outjson)
-                cmd = ["cargo", "kani", "--target-dir", os.path.join(E3DIR, "target-" + fam),
-                       "-Z", "function-contracts", "-Z", "stubbing", "-Z", "unstable-options", "--exact",
-                       "-j", str(jobs), "--output-format", "terse", "--export-json", outjson,
-                       "--harness-timeout", f"{budget}s"]
-                if "nofloat" in flags:
-                    cmd.append("--no-overflow-checks")
-                for o in sorted(os_, key=lambda o: -o.budget):
-                    cmd += ["--harness", o.harness]
-                info["cmds"].append(f"(cd <scratch>/e3/{fam}; " + " ".join(cmd[:12]) + f" … {len(os_)} harnesses)")
-                log(f"[e3] cargo kani family={fam} harnesses={len(os_)} budget={budget}s jobs={jobs}")
-                wall = budget * (len(os_) / jobs + 1) + 900
-                rc, out, dt = run(cmd, cwd=dst, timeout=wall, mem_gb=28)
-                with open(os.path.join(E3DIR, f"last-{fam}.log"), "w") as f:
-                    f.write(out)
-                results += e1._parse(outjson, out, os_, rc)
-                if os.path.exists(outjson):
-                    os.remove(outjson)
+        names = sorted({o.crate for o in obls})
+        per = {f: [o for o in obls if o.crate == f] for f in names}
+        total = sum(len(v) for v in per.values())
+        if len(names) == 1:
+            share = {names[0]: NCPU}
+        else:
+            share = {f: max(2, min(len(per[f]), round(NCPU * len(per[f]) / total))) for f in names}
+        with ThreadPoolExecutor(max_workers=max(1, min(len(names), 6))) as ex:
+            futs = {f: ex.submit(_run_family, f, fams[f], per[f], share[f], log) for f in names}
+            for f in names:
+                r, sources, ext, cmds = futs[f].result()
+                results += r
+                prep.sources += sources
+                info["extraction"][f] = ext
+                info["cmds"] += cmds
     return results, prep, info
 
 
